@@ -904,7 +904,7 @@ func handWrittenUTF8(p *plainParts) bool {
 			if g == nil {
 				continue
 			}
-			if g.Pkg != nil && g.Pkg.Pkg.Path() == "unicode/utf8" && g.Name() != "Valid" && g.Name() != "FullRune" && g.Name() != "ValidString" {
+			if g.Pkg != nil && g.Pkg.Pkg.Path() == "unicode/utf8" && strings.HasPrefix(g.Name(), "Decode") {
 				return true
 			}
 			if core.InMod(g) && rec(g, d+1) {
